@@ -73,6 +73,25 @@ def replay(case):
             obs['exc'] = type(exc).__name__
             obs['msg'] = str(exc)[:200]
         return obs
+    if scn['kind'] == 'logout_request':
+        idp = spc.idp_for()
+        doc = ('<samlp:LogoutRequest xmlns:samlp="%s" xmlns:saml="%s" ID="lq1" Version="%s" IssueInstant="%s" Destination="%s">'
+               '<saml:Issuer>%s</saml:Issuer><saml:NameID>subject-1</saml:NameID></samlp:LogoutRequest>'
+               % (sb.NS_SAMLP, sb.NS_SAML, scn['version'], env.ts(spc.now() - 5), env.IDP1_SLO, env.SP))
+        obs = {'doc': doc, 'exc': None, 'calls': []}
+        try:
+            if scn['via'] == 'soap':
+                req = idp.parse_logout_request(SOAP % doc, env.BINDING_SOAP)
+            else:
+                req = idp.parse_logout_request(sb.deflate_b64(doc), env.BINDING_REDIRECT)
+            obs['verdict'] = 'accept' if req is not None and getattr(req, 'message', None) is not None else 'reject'
+            if req is None:
+                obs['exc'] = 'None'
+        except Exception as exc:
+            obs['verdict'] = 'reject'
+            obs['exc'] = type(exc).__name__
+            obs['msg'] = str(exc)[:200]
+        return obs
     idp = spc.idp_for()
     doc = sb.authn_request(issuer=env.SP, destination=env.IDP1_SSO, acs_url=env.SP_ACS_POST, binding=env.BINDING_POST,
                            version=scn['version'], issue_instant=env.ts(spc.now() - 5))
@@ -98,7 +117,7 @@ def main():
         raise fw.Machinery('SPStatus.tla: pipeline violates the contract: %s\n%s' % (res.violated, res.text[-2000:]))
     cases = sorted(res.cases, key=lambda c: json.dumps(c['scn'], sort_keys=True))
     if not thorough:
-        cases = [c for c in cases if c['scn']['kind'] == 'request' or c['classDecided'] and c['scn']['asrt'] == 'signed'
+        cases = [c for c in cases if c['scn']['kind'] in ('request', 'logout_request') or c['classDecided'] and c['scn']['asrt'] == 'signed'
                  or chk.rng.random() < 0.25]
     nacc = 0
     for case, obs, err in fw.pmap(replay, cases, init=spc.init_worker, chunk=16):
